@@ -1,4 +1,8 @@
 package sim
 
+import "math/rand/v2"
+
 // BEScenario is the backend engine's part of a scenario (defined later).
 type BEScenario struct{}
+
+func genC18BE(r *rand.Rand, run int, tier string) *Scenario { return genC18(r, run-1, tier) }
